@@ -16,7 +16,7 @@ TRUSTED = [
 ]
 
 F1 = ("F1 int/decimal + - * rounded to 34 significant digits (internal.BaseContext precision in adt/decimal.go numOp): "
-      "impl == Impl model != exact Spec on %d generated expressions, e.g. `%s` -> %s (exact: %s); witness theorem C06_int_add_exact_refuted (10^36 + 1)")
+      "impl == Impl model != exact Spec on %d generated expressions (%d of them `int op int`), e.g. `%s` -> %s (exact: %s); witness theorem C06_int_add_exact_refuted (10^36 + 1)")
 F5 = ("F5 multiplier literal product rounded to 34 digits before RoundToIntegralExact (cue/literal/num.go decimal): "
       "impl == Impl model != specified value on %d generated literals, e.g. `%s` -> %s; witness theorem C06_mult_literal_exact_refuted")
 F8 = ("F8 fractional multiplier literal rejected where doc/ref/spec.md says the result is truncated (e.g. 1.3Ki = 1331): "
@@ -55,25 +55,61 @@ def run_model(exe, cases, jobs):
     return res
 
 
+def coq_expr(toks):
+    """Prefix token stream -> Gallina term of type Eval.expr."""
+    t = toks[0]
+    r = toks[1:]
+    arith = {"+": "OpAdd", "-": "OpSub", "*": "OpMul", "/": "OpQuo"}
+    cmp = {"==": "CEq", "!=": "CNe", "<": "CLt", "<=": "CLe", ">": "CGt", ">=": "CGe"}
+    call = {"div": "FDiv", "mod": "FMod", "quo": "FQuo", "rem": "FRem"}
+    if t in arith or t in cmp or t in call:
+        a, r = coq_expr(r)
+        b, r = coq_expr(r)
+        if t in arith:
+            return "(EArith %s %s %s)" % (arith[t], a, b), r
+        if t in cmp:
+            return "(ECmp %s %s %s)" % (cmp[t], a, b), r
+        return "(ECall %s %s %s)" % (call[t], a, b), r
+    if t == "neg":
+        a, r = coq_expr(r)
+        return "(ENeg %s)" % a, r
+    if t[0] == "i":
+        return "(ELit (mkNum KInt (mkDec false %d%%N 0%%Z)))" % int(t[1:], 16), r
+    h, e = t[1:].split("^")
+    return "(ELit (mkNum KFloat (mkDec false %d%%N (%s)%%Z)))" % (int(h, 16), e), r
+
+
 def vm_crosscheck(ctx, cases, model, limit):
     """Evaluate a deterministic sub-sample with vm_compute inside coqc and compare with the
     extracted model (guards extraction and the driver glue)."""
     picked = []
+    nl = ne = 0
     for c, m in zip(cases, model):
         f = c.split()
-        if f[0] == "L" or f[0] == "LV":
+        if f[0] in ("L", "LV") and nl < limit and len(c) < 300:
             picked.append((c, m))
-        if len(picked) >= limit:
+            nl += 1
+        elif f[0] == "E" and ne < limit and len(c) < 400 and (hash(c) % 7 == 0 or ne < 5):
+            picked.append((c, m))
+            ne += 1
+        if nl >= limit and ne >= limit:
             break
     if not picked:
         return 0
-    lines = ["From Verif Require Import Num.Decimal Num.NumLit Num.NumLitSpec.",
+    lines = ["From Verif Require Import Num.Decimal Num.IntDiv Num.Eval Num.NumLit Num.NumLitSpec.",
              "From Coq Require Import List NArith ZArith.", "Import ListNotations.", "Open Scope N_scope.",
-             "Definition show (r : lit_result) : N * N * bool * N * Z := match r with LErr => (0,0,false,0,0%Z) | LNaN k => (1, (match k with KInt => 0 | KFloat => 1 end), false, 0, 0%Z) | LNum x => (2, (match nk x with KInt => 0 | KFloat => 1 end), neg (nd x), coeff (nd x), exp (nd x)) end."]
+             "Definition shown (x : num) := (2, (match nk x with KInt => 0 | KFloat => 1 end), neg (nd x), coeff (nd x), (exp (nd x) <? 0)%Z, Z.abs_N (exp (nd x))).",
+             "Definition show (r : lit_result) := match r with LErr => (0,0,false,0,false,0) | LNaN k => (1, (match k with KInt => 0 | KFloat => 1 end), false, 0, false, 0) | LNum x => shown x end.",
+             "Definition showe (r : result value) := match r with Err => (0,0,false,0,false,0) | Ok (VBool b) => (3, (if b then 1 else 0), false, 0, false, 0) | Ok (VNum x) => shown x end."]
     for c, _ in picked:
-        h = c.split()[1]
-        bs = [] if h == "-" else [str(int(h[i:i + 2], 16)) for i in range(0, len(h), 2)]
-        lines.append("Eval vm_compute in show (lit_parse [%s])." % "; ".join(bs))
+        f = c.split()
+        if f[0] == "E":
+            term, rest = coq_expr(f[1:])
+            lines.append("Eval vm_compute in showe (eval true %s)." % term)
+        else:
+            h = f[1]
+            bs = [] if h == "-" else [str(int(h[i:i + 2], 16)) for i in range(0, len(h), 2)]
+            lines.append("Eval vm_compute in show (lit_parse [%s])." % "; ".join(bs))
     vf = os.path.join(ctx.work, "crosscheck.v")
     with open(vf, "w") as f:
         f.write("\n".join(lines) + "\n")
@@ -87,20 +123,28 @@ def vm_crosscheck(ctx, cases, model, limit):
     for (c, m), g in zip(picked, got):
         t = [x.strip() for x in g.split(",")]
         mm = m.split(" # ")[0].split()
+        isE = c.startswith("E ")
         if t[0] == "0":
             exp = ["err"]
         elif t[0] == "1":
             exp = ["nan", "if"[int(t[1])]]
+        elif t[0] == "3":
+            exp = ["b", t[1]]
         else:
-            exp = ["num", "if"[int(t[1])], "-" if t[2] == "true" else "+", "%x" % int(t[3]), str(int(t[4].replace("%Z", "").strip("()")))]
+            exp = ["n" if isE else "num", "if"[int(t[1])], "-" if t[2] == "true" else "+", "%x" % int(t[3]),
+                   str(-int(t[5]) if t[4] == "true" else int(t[5]))]
         if exp != mm:
             raise vlib.CheckFailure("extracted model and vm_compute disagree on %s: %s vs %s" % (c, m, exp))
     return len(picked)
 
 
 def run(ctx):
+    import time
     quick = ctx.tier == "quick"
+    phase = {}
+    t0 = time.time()
     proof = vlib.prove("C06", extra_targets=["theories/Extract/C06.vo"])
+    phase["prove"] = round(time.time() - t0, 1)
     if not quick:
         proof.update(vlib.coqchk("C06"))
         if proof["coqchk_rc"] != 0:
@@ -121,13 +165,19 @@ def run(ctx):
     else:
         args += ["--tier", "thorough", "--n", "400000", "--nlit", "150000", "--nstr", "10000", "--maxdigits", "600",
                  "--maxexp", "2000", "--corpus", corpus]
+    t0 = time.time()
     vlib.run(args, timeout=3000)
+    phase["harness_run"] = round(time.time() - t0, 1)
     cases = open(os.path.join(ctx.work, "cases.txt")).read().split("\n")[:-1]
     impl = open(os.path.join(ctx.work, "impl.txt")).read().split("\n")[:-1]
+    t0 = time.time()
     model = run_model(exe, cases, 14)
+    phase["model_run"] = round(time.time() - t0, 1)
     if not (len(cases) == len(impl) == len(model)):
         raise vlib.CheckFailure("line count mismatch cases=%d impl=%d model=%d" % (len(cases), len(impl), len(model)))
-    nvm = vm_crosscheck(ctx, cases, model, 60 if quick else 400)
+    t0 = time.time()
+    nvm = vm_crosscheck(ctx, cases, model, 40 if quick else 300)
+    phase["vm_crosscheck"] = round(time.time() - t0, 1)
 
     kinds = {}
     outcome = {}
@@ -175,8 +225,8 @@ def run(ctx):
             mismatches += 1
             if mismatches <= 5:
                 what = {
-                    "E": "value of the CUE expression (kind, sign, coefficient, exponent, or error) differs from the Coq model of apd precision-34 arithmetic / numOp / intDivOp / Cmp (theorems C06_add_error_bound, C06_quo_correctly_rounded, C06_div_mod_euclid, C06_cmp_spec ...)",
-                    "L": "literal.ParseNum + NumInfo.Decimal differ from the byte-level Coq model NumLit.lit_parse",
+                    "E": "value of the CUE expression (kind, sign, coefficient, exponent, or error) differs from the Coq model of apd precision-34 arithmetic / numOp / intDivOp / Cmp (theorems C06_add_correctly_rounded, C06_quo_correctly_rounded, C06_div_mod_euclid, C06_cmp_spec ...)",
+                    "L": "literal.ParseNum + NumInfo.Decimal differ from the byte-level Coq model NumLit.lit_parse (theorems C06_literal_float_value, C06_literal_si_value ...)",
                     "LV": "a grammar-valid literal: literal.ParseNum / compiled value differ from the Coq model NumLit.lit_parse (or from each other: E2E-DIFF)",
                     "S": "string/bytes comparison differs from bytewise lexicographic order (C06_bytes_cmp_total_order)",
                 }.get(k, "?")
@@ -196,9 +246,13 @@ def run(ctx):
                 f8.append((c, mres))
             elif mcls == "EXPRANGE":
                 f9.append((c, mres))
+    def int_only(c):
+        f = c.split()
+        return len(f) == 4 and f[1] in "+-*" and all(t[0] == "i" or t == "neg" for t in f[2:])
+    f1_int = [x for x in f1 if int_only(x[0])]
     if f1:
-        c, r, s = min(f1, key=lambda x: len(x[0]))
-        ctx.known_finding(F1 % (len(f1), render(c), r, s))
+        c, r, s = min(f1_int or f1, key=lambda x: len(x[0]))
+        ctx.known_finding(F1 % (len(f1), len(f1_int), render(c), r, s))
     if f5:
         c, r = min(f5, key=lambda x: len(x[0]))
         ctx.known_finding(F5 % (len(f5), render(c), r))
@@ -226,11 +280,12 @@ def run(ctx):
         "outcomes_by_kind": outcome,
         "operator_mix": ops,
         "max_operand_digits_hist": digit_hist,
-        "known_deviation_instances": {"F1_arith_rounded": len(f1), "F5_mult_literal_rounded": len(f5),
+        "known_deviation_instances": {"F1_arith_rounded": len(f1), "F1_int_op_int": len(f1_int), "F5_mult_literal_rounded": len(f5),
                                       "F8_fractional_mult_rejected": len(f8), "F9_exponent_range": len(f9)},
         "vm_compute_crosschecked": nvm,
         "mismatches": mismatches,
         "harness_build_s": hsecs,
+        "phase_s": phase,
         "proof": {k: v for k, v in proof.items() if k.startswith("coqchk") or k in ("make_s",)},
     })
     ctx.assumptions.extend(TRUSTED)
